@@ -189,7 +189,12 @@ func (e *FieldExpression) Evaluate(ctx *Context, input system.Collection) (syste
 				return nil, err
 			}
 			if contained, ok := obj.(*bcrpb.ContainedResource); ok {
-				obj = containedresource.Unwrap(contained)
+				resource := containedresource.Unwrap(contained)
+				if resource == nil {
+					// a ContainedResource with no resource set holds nothing to navigate to
+					return nil, nil
+				}
+				obj = resource
 			}
 			return e.unwrapOneof(obj), nil
 		}
@@ -206,7 +211,9 @@ func (e *FieldExpression) Evaluate(ctx *Context, input system.Collection) (syste
 			if err != nil {
 				return nil, err
 			}
-			output = append(output, unwrapped)
+			if unwrapped != nil {
+				output = append(output, unwrapped)
+			}
 			continue
 		}
 		content := reflect.Get(field).List()
@@ -216,7 +223,9 @@ func (e *FieldExpression) Evaluate(ctx *Context, input system.Collection) (syste
 			if err != nil {
 				return nil, err
 			}
-			output = append(output, unwrapped)
+			if unwrapped != nil {
+				output = append(output, unwrapped)
+			}
 		}
 	}
 	return output, nil
